@@ -16,6 +16,8 @@ class Recorder:
         self.items = []
         self.I = interp
         self.assume_violated = False
+        self.nat_in = None
+        self.nat_out = None
 
     def assume(self, p, lo, hi, what=""):
         """precondition of the specification (e.g. 'the operand is a reduced scalar'): a constraint for the solver, a filter for concrete replays"""
@@ -37,6 +39,13 @@ class Recorder:
 
     def equal(self, a, b, what):
         self.items.append(dict(kind="equal", poly=a - b, what=what))
+
+    def native_in(self, op, fields):
+        """operation code + operand fields [(poly, nbytes)] for the native execution entry (harness/incrate/limbs_native.rs)"""
+        self.nat_in = (op, fields)
+
+    def native_out(self, polys):
+        self.nat_out = list(polys)
 
     def fzero(self, fpoly, what):
         """ring-level obligation: a polynomial over GF(p) that must be identically zero after normalisation"""
@@ -112,6 +121,9 @@ def confirm(sp, fns, consts, model, o, only=None):
         return False
     if R.assume_violated:
         return False
+    native_note = native_crosscheck(R)
+    if native_note and native_note.startswith("MISMATCH"):
+        return False
     items = [dict(kind="overflow", what="no overflow: %s [%s]" % (x["what"], x["where"]), poly=x["poly"], lo=x["lo"], hi=x["hi"]) for x in I.obligations] + R.items
     for it in items:
         p = it["poly"]
@@ -120,13 +132,49 @@ def confirm(sp, fns, consts, model, o, only=None):
         if only is not None and it["what"] != only:
             continue
         v = p.cval()
+        tail = (" | " + native_note) if native_note else ""
         if it["kind"] in ("range", "overflow") and not (it["lo"] <= v <= it["hi"]):
-            return "concrete: %s: value %d outside [%d, %d]" % (it["what"], v, it["lo"], it["hi"])
+            return "concrete: %s: value %d outside [%d, %d]%s" % (it["what"], v, it["lo"], it["hi"], tail)
         if it["kind"] == "congruent" and v % it["modulus"] != 0:
-            return "concrete: %s" % it["what"]
+            return "concrete: %s%s" % (it["what"], tail)
         if it["kind"] == "equal" and v != 0:
-            return "concrete: %s" % it["what"]
+            return "concrete: %s%s" % (it["what"], tail)
     return False
+
+
+NATIVE = dict(base=None, features=[])
+
+
+def native_crosscheck(R):
+    """execute the same operation on the same operands in the REAL build (dev profile: overflow checks on) and compare with the MIR
+    interpreter's concrete outputs. returns a note, 'MISMATCH ...' when the interpreter and the native code disagree (=> not reported)."""
+    if not NATIVE["base"] or R.nat_in is None or R.nat_out is None:
+        return None
+    sys.path.insert(0, os.path.join(os.path.dirname(os.path.dirname(os.path.abspath(__file__))), "runner"))
+    import kanirun
+    op, fields = R.nat_in
+    data = bytes([op])
+    for (p, nbytes) in fields:
+        v = p.cval() if hasattr(p, "cval") else int(p)
+        data += (v % (1 << (8 * nbytes))).to_bytes(nbytes, "little")
+    exe, out = kanirun.native_build(NATIVE["base"], NATIVE["features"], "dev")
+    if not exe:
+        return "native build unavailable"
+    env = dict(os.environ, VERIF_REPLAY_HARNESS="zz_native_limbs", VERIF_REPLAY_BYTES=data.hex(), RUST_BACKTRACE="0")
+    import subprocess
+    pr = subprocess.run([exe, "verif_glue::verif_replay_entry", "--exact", "--nocapture", "--test-threads", "1"], env=env, stdout=subprocess.PIPE, stderr=subprocess.STDOUT, timeout=300)
+    txt = pr.stdout.decode("utf-8", "replace")
+    m = re.search(r"VERIF-NATIVE-OUT:((?: -?\d+)*)", txt)
+    if not m:
+        pm = re.search(r"VERIF-REPLAY-RESULT: panicked .*msg=(.*)", txt)
+        if pm:
+            return "native dev build panics: %s" % pm.group(1)[:120]
+        return "native run gave no output"
+    got = [int(x) for x in m.group(1).split()]
+    want = [p.cval() for p in R.nat_out]
+    if got != want:
+        return "MISMATCH between MIR interpreter %s and native build %s" % (want[:6], got[:6])
+    return "native build computes the same output limbs"
 
 
 def corner_search(sp, fns, consts, tab, o, tries=96):
@@ -158,10 +206,13 @@ def main():
     ap.add_argument("--json", default=None)
     ap.add_argument("--prop", default=None)
     ap.add_argument("--tier", default="quick")
+    ap.add_argument("--native-base", default=None)
     ap.add_argument("--timeout-ms", type=int, default=120000)
     a = ap.parse_args()
     t0 = time.time()
     fns, consts = mirparse.parse_file(a.mir)
+    NATIVE["base"] = a.native_base
+    NATIVE["features"] = ["force-32bits"] if a.cfg == "fe32" else []
     import z3
     out = dict(mir=a.mir, parse_s=round(time.time() - t0, 2), z3=z3.get_version_string(), results=[])
     for name, sp in specs.SPECS.items():
